@@ -860,6 +860,46 @@ Theorem C15_refl3_is_refl : forall ext rfiles rt fuel ls e last e' tr st,
   refl3 ext rfiles fuel ls e rt last = Some (e', rt, tr, st).
 Proof. exact refl3_refl. Qed.
 
+(** 3n. (round 9e) The run_script-level corollary for and-or lines, and: on lines that are single pipelines
+    (in the text and in every body) the and-or reference of 3l IS the flag-state reference of 3g. *)
+Theorem C15_sete_andor_script : forall ext file_text n fuel path text defs text_new rt lines w e' tr st,
+  file_text path = Some text -> function_table text = (defs, text_new) ->
+  tab_okw (set_funcs defs (s_funcs w)) rt ->
+  flat_parsed text_new lines -> forallb wf_line lines = true ->
+  alines (rpipe ext rt fuel) lines (Some (s_eoe w, [])) 0%Z = (Some (e', tr), st) ->
+  run_script ext file_text n (S fuel) w path =
+    (mk_shs (s_eoe w) (set_funcs defs (s_funcs w)) (s_log w ++ tr), st).
+Proof. exact andor_trace_script. Qed.
+
+Theorem C15_alines_is_refl : forall ext rt,
+  (forall name body, get_body name rt = Some body -> forallb single_pipe body = true) ->
+  forall fuel ls e last e' tr st, forallb single_pipe ls = true ->
+  refl ext rt fuel ls e last = Some (e', tr, st) ->
+  forall tr0, alines (rpipe ext rt fuel) ls (Some (e, tr0)) last = (Some (e', (tr0 ++ tr)%list), st).
+Proof. exact alines_refl. Qed.
+
+(** 3o. (round 9e) BLANK LINES inside indented flat texts: [skel] (hence flat_parsed) skips CMD pairs with empty
+    text as exp_loop does; [body_lines b] lists every line of the block, a blank line as the empty text; the
+    parse gives exactly the non-empty ones. *)
+Theorem C15_indented_blank_text_parsed : forall b ls, fragI_block b = true -> body_lines b = Some ls ->
+  parse_from l_grammar L_EXP (render_block b) = PFuel \/ flat_parsed (render_block b) (filter nonempty_l ls).
+Proof. exact indented_blank_text_parsed. Qed.
+
+Theorem C15_tab_ok_indented_blank : forall k b ls ft rt, fragI_block b = true -> body_lines b = Some ls ->
+  parse_from l_grammar L_EXP (render_block b) <> PFuel -> forallb ok_line (filter nonempty_l ls) = true ->
+  tab_ok ft rt -> tab_ok ((k, render_block b) :: ft) ((k, filter nonempty_l ls) :: rt).
+Proof. exact tab_ok_indented_blank. Qed.
+
+Definition bl_body : block :=
+  BCons (SCmd (S2 "  ") (S2 "in1")) (BCons (SBlank (S2 " ")) (BCons (SCmd it_tab (S2 "fail7")) (BCons (SBlank nil) BNil))).
+Example C15_indented_blank_nonvacuous : flat_parsed (render_block bl_body) [S2 "in1"; S2 "fail7"].
+Proof.
+  assert (Hf : fragI_block bl_body = true) by (vm_compute; reflexivity).
+  assert (Hb : body_lines bl_body = Some [S2 "in1"; nil; S2 "fail7"; nil]) by (vm_compute; reflexivity).
+  destruct (C15_indented_blank_text_parsed bl_body _ Hf Hb) as [F|P];
+    [vm_compute in F; discriminate F | exact P].
+Qed.
+
 (** The property, in full, and its refutation on the faithful model (what is left: a token
     holding a newline is not expanded -- first clause, stated for ALL tokens). *)
 Definition C15_full : Prop :=
@@ -936,6 +976,11 @@ Print Assumptions C15_sete_rest_of_body.
 Print Assumptions C15_sete_calls_trace.
 Print Assumptions C15_sete_calls_script.
 Print Assumptions C15_first_failure.
+Print Assumptions C15_indented_blank_text_parsed.
+Print Assumptions C15_tab_ok_indented_blank.
+Print Assumptions C15_indented_blank_nonvacuous.
+Print Assumptions C15_sete_andor_script.
+Print Assumptions C15_alines_is_refl.
 Print Assumptions C15_refl3_is_refl.
 Print Assumptions C15_sete_andor_trace.
 Print Assumptions C15_sete_andor_trace_nonvacuous.
